@@ -2,4 +2,4 @@ From Coq Require Import Extraction ExtrOcamlBasic.
 From SV Require Import Base.Bytes Model.LogFile.
 Extraction Language OCaml.
 Extraction "c19_model.ml" post_fix fix18 ow_old_order ow_age set_step plan_ties oracle_set_step kill_names track_entries
-  start_id start step restamp oracle_writer ow_suffix ow_current_last ow_file_sizes ow_total is_log_file listing f_size matches.
+  start_id start step restamp oracle_writer ow_suffix ow_current_last ow_file_sizes ow_total is_log_file listing f_size matches oracle_set_creation kf_c19_equal_mtime_name_order.
